@@ -159,6 +159,7 @@ func (d *subDrv) Step(line string) string {
 			d.cids[f[1]] = true
 		}
 		rs, err := d.st.Subscribe(f[1], s)
+		d.disarm()
 		if err != nil || len(rs) != 1 {
 			return "err"
 		}
